@@ -27,7 +27,7 @@ TEXT["C01"] = dict(
          "micro/walk.go, exts.go, unify.go on every run (harness/cmd/genmicro: statement by statement into a result monad with out-of-fuel and panic "
          "outcomes; nil dereference, Car/Cdr of an atom and index out of range are Panic) and proved equal to the readable model (C01_code_is_model), "
          "so the theorems are about the text of /repo as it is now (C01_code_mgu, C01_code_fail, C01_code_total, C01_code_wf) and the code never "
-         "panics on any input (C01_code_never_panics). Second tie: differential execution of the real functions (unify, EqualO, walk, occurs, exts, "
+         "panics on any input (C01_code_never_panics); the goal EqualO (micro/goal.go) is translated as a function of its terms and the state (C01_code_goal). Second tie: differential execution of the real functions (unify, EqualO, walk, occurs, exts, "
          "walkStar through a verif-tagged export file) against the model and an independent reference-unifier oracle (verdict, unifier, most "
          "general up to renaming, earlier bindings kept, input not mutated); it is also the failing-input search when a changed source breaks the equivalence proof.",
     note="trusted: Coq kernel + vm_compute; the translator genmicro and the primitives of GoLite.v (terms as an inductive type: a nil *SExpr is the empty list, "
@@ -53,7 +53,9 @@ TEXT["C03"] = dict(
          "C03_total_force - no force of a guarded program gets stuck; take(n) laws: at most n, fewer only if exhausted, exactly n when available, "
          "all for negative n iff finite, prefix of n+1, deterministic. takeStream is translated from micro/stream.go on every run (genmicro -stream; CarCdr as one "
          "step of the stream model) and proved equal to the model take, so the count clauses are theorems about the text (C03_code_take_is_model, "
-         "C03_code_at_most_n, C03_code_fewer_only_if_exhausted, C03_code_all_for_negative_n, C03_code_take_never_panics). Tie for Mplus/Bind and the goal constructors: exact cell traces + take(n) prefix/exact-n/determinism oracles on the "
+         "C03_code_at_most_n, C03_code_fewer_only_if_exhausted, C03_code_all_for_negative_n, C03_code_take_never_panics); Mplus and Bind are translated too (their closures read into the "
+         "defunctionalised thunks TMplus / TBind) and proved to be the model's mplus / bindk, panic-free, never running an immature cell they merely inspect (C03_code_mplus_is_model, "
+         "C03_code_bind_is_model, C03_code_suspensions_not_run), as are the goal constructors Disj and Conj (C03_code_disj_conj_are_eval, C03_code_disj_conj_return). Tie for Zzz, CallFresh and the programs built from all of these: exact cell traces + take(n) prefix/exact-n/determinism oracles on the "
          "real code, with process isolation so that a diverging implementation is an observation.",
     note=_PROG_NOTE + "; multiplicities in infinite streams are stated at set level (InStream), multisets for finite streams",
     technique="Coq proof (induction on the Den derivation with fairness lemmas; induction on take fuel) + translation of takeStream to Gallina on every run + differential cell-trace correspondence",
@@ -62,10 +64,14 @@ TEXT["C09"] = dict(
     text="Theorems (Coq kernel, no axioms): DisjPlusNoZzz is the nested binary disjunction (stream equality); ConjPlusNoZzz has the identical cell trace as "
          "nested Conj (bisimulation up to thunk labels); the Zzz variants and Conde have the same answers (and for finite streams permutation-equal answer "
          "lists); empty conj succeeds once, empty disj fails; ifte = c-and-then-t with all answers of c when c has an answer, = e when c fails finitely, "
-         "silent when c is silent; once = the first answer, at most one. Tie: cell traces of n-ary programs with failing/diverging/infinite arguments in "
+         "silent when c is silent; once = the first answer, at most one. DisjPlus, DisjPlusNoZzz, ConjPlus, ConjPlusNoZzz and Conde are translated from mini/disj.go, conj.go, "
+         "conde.go on every run (genmicro -mini: functions from argument slices to the goal value returned; the returned function literals must be the bodies of micro.Disj / micro.Conj) "
+         "and proved to return the right-nested binary form of the (delay-wrapped) arguments for every list, without panics (C09_code_is_nested, C09_code_conde, C09_code_never_panics); the "
+         "answer clauses are proved for these goals (C09_code_disj_zzz_stream, C09_code_disj_zzz_answers, C09_code_conj_zzz_answers, C09_code_conde_answers). Tie for IfThenElseO / OnceO and the "
+         "micro operators underneath: cell traces of n-ary programs with failing/diverging/infinite arguments in "
          "every position, and the implementation against its own macro expansion.",
     note=_PROG_NOTE,
-    technique="Coq proof (stream bisimulation, membership lemmas for mplus/bind, induction on loop derivations) + differential correspondence",
+    technique="Coq proof (stream bisimulation, membership lemmas for mplus/bind, induction on loop derivations) + translation of mini's n-ary combinators to Gallina on every run + differential correspondence",
 )
 
 TEXT["C04"] = dict(
